@@ -100,6 +100,15 @@ BrowserProofs.vos BrowserProofs.vok BrowserProofs.required_vos: BrowserProofs.v 
 NetProofs.vo NetProofs.glob NetProofs.v.beautified NetProofs.required_vo: NetProofs.v Base.vo Fields.vo SrcFacts.vo Msg.vo SrcDecisions.vo Cache.vo CacheSpec.vo CacheProofs.vo Sim.vo Prober.vo Hostname.vo Resolver.vo Provider.vo ProviderSpec.vo Browser.vo BrowserProofs.vo
 NetProofs.vio: NetProofs.v Base.vio Fields.vio SrcFacts.vio Msg.vio SrcDecisions.vio Cache.vio CacheSpec.vio CacheProofs.vio Sim.vio Prober.vio Hostname.vio Resolver.vio Provider.vio ProviderSpec.vio Browser.vio BrowserProofs.vio
 NetProofs.vos NetProofs.vok NetProofs.required_vos: NetProofs.v Base.vos Fields.vos SrcFacts.vos Msg.vos SrcDecisions.vos Cache.vos CacheSpec.vos CacheProofs.vos Sim.vos Prober.vos Hostname.vos Resolver.vos Provider.vos ProviderSpec.vos Browser.vos BrowserProofs.vos
+NetHop.vo NetHop.glob NetHop.v.beautified NetHop.required_vo: NetHop.v Base.vo Fields.vo SrcFacts.vo Msg.vo SrcDecisions.vo Cache.vo CacheSpec.vo CacheProofs.vo Sim.vo Prober.vo Hostname.vo Resolver.vo Provider.vo ProviderSpec.vo ProviderProofs.vo ProviderListener.vo Browser.vo BrowserProofs.vo NetProofs.vo Decoder.vo Encoder.vo WireSpec.vo WireMsg.vo DecoderMsg.vo EncoderMsg.vo
+NetHop.vio: NetHop.v Base.vio Fields.vio SrcFacts.vio Msg.vio SrcDecisions.vio Cache.vio CacheSpec.vio CacheProofs.vio Sim.vio Prober.vio Hostname.vio Resolver.vio Provider.vio ProviderSpec.vio ProviderProofs.vio ProviderListener.vio Browser.vio BrowserProofs.vio NetProofs.vio Decoder.vio Encoder.vio WireSpec.vio WireMsg.vio DecoderMsg.vio EncoderMsg.vio
+NetHop.vos NetHop.vok NetHop.required_vos: NetHop.v Base.vos Fields.vos SrcFacts.vos Msg.vos SrcDecisions.vos Cache.vos CacheSpec.vos CacheProofs.vos Sim.vos Prober.vos Hostname.vos Resolver.vos Provider.vos ProviderSpec.vos ProviderProofs.vos ProviderListener.vos Browser.vos BrowserProofs.vos NetProofs.vos Decoder.vos Encoder.vos WireSpec.vos WireMsg.vos DecoderMsg.vos EncoderMsg.vos
+NetPair.vo NetPair.glob NetPair.v.beautified NetPair.required_vo: NetPair.v Base.vo Fields.vo SrcFacts.vo Msg.vo SrcDecisions.vo Cache.vo CacheSpec.vo CacheProofs.vo Sim.vo Prober.vo ProberProofs.vo Hostname.vo HostnameProofs.vo HostnameInv.vo Resolver.vo Provider.vo ProviderSpec.vo ProviderProofs.vo ProviderListener.vo ProviderConverge.vo ProviderGoodbye.vo Browser.vo BrowserProofs.vo NetProofs.vo NetHop.vo
+NetPair.vio: NetPair.v Base.vio Fields.vio SrcFacts.vio Msg.vio SrcDecisions.vio Cache.vio CacheSpec.vio CacheProofs.vio Sim.vio Prober.vio ProberProofs.vio Hostname.vio HostnameProofs.vio HostnameInv.vio Resolver.vio Provider.vio ProviderSpec.vio ProviderProofs.vio ProviderListener.vio ProviderConverge.vio ProviderGoodbye.vio Browser.vio BrowserProofs.vio NetProofs.vio NetHop.vio
+NetPair.vos NetPair.vok NetPair.required_vos: NetPair.v Base.vos Fields.vos SrcFacts.vos Msg.vos SrcDecisions.vos Cache.vos CacheSpec.vos CacheProofs.vos Sim.vos Prober.vos ProberProofs.vos Hostname.vos HostnameProofs.vos HostnameInv.vos Resolver.vos Provider.vos ProviderSpec.vos ProviderProofs.vos ProviderListener.vos ProviderConverge.vos ProviderGoodbye.vos Browser.vos BrowserProofs.vos NetProofs.vos NetHop.vos
+NetLag.vo NetLag.glob NetLag.v.beautified NetLag.required_vo: NetLag.v Base.vo Fields.vo SrcFacts.vo Msg.vo SrcDecisions.vo Cache.vo CacheSpec.vo CacheProofs.vo Sim.vo Prober.vo ProberProofs.vo Hostname.vo HostnameProofs.vo HostnameInv.vo Resolver.vo Provider.vo ProviderSpec.vo ProviderProofs.vo ProviderListener.vo ProviderConverge.vo ProviderGoodbye.vo Browser.vo BrowserProofs.vo NetProofs.vo NetHop.vo NetPair.vo
+NetLag.vio: NetLag.v Base.vio Fields.vio SrcFacts.vio Msg.vio SrcDecisions.vio Cache.vio CacheSpec.vio CacheProofs.vio Sim.vio Prober.vio ProberProofs.vio Hostname.vio HostnameProofs.vio HostnameInv.vio Resolver.vio Provider.vio ProviderSpec.vio ProviderProofs.vio ProviderListener.vio ProviderConverge.vio ProviderGoodbye.vio Browser.vio BrowserProofs.vio NetProofs.vio NetHop.vio NetPair.vio
+NetLag.vos NetLag.vok NetLag.required_vos: NetLag.v Base.vos Fields.vos SrcFacts.vos Msg.vos SrcDecisions.vos Cache.vos CacheSpec.vos CacheProofs.vos Sim.vos Prober.vos ProberProofs.vos Hostname.vos HostnameProofs.vos HostnameInv.vos Resolver.vos Provider.vos ProviderSpec.vos ProviderProofs.vos ProviderListener.vos ProviderConverge.vos ProviderGoodbye.vos Browser.vos BrowserProofs.vos NetProofs.vos NetHop.vos NetPair.vos
 ProviderProofs.vo ProviderProofs.glob ProviderProofs.v.beautified ProviderProofs.required_vo: ProviderProofs.v Base.vo Fields.vo SrcFacts.vo Msg.vo SrcDecisions.vo Cache.vo CacheSpec.vo CacheProofs.vo Sim.vo Prober.vo Hostname.vo HostnameProofs.vo Resolver.vo Provider.vo ProviderSpec.vo
 ProviderProofs.vio: ProviderProofs.v Base.vio Fields.vio SrcFacts.vio Msg.vio SrcDecisions.vio Cache.vio CacheSpec.vio CacheProofs.vio Sim.vio Prober.vio Hostname.vio HostnameProofs.vio Resolver.vio Provider.vio ProviderSpec.vio
 ProviderProofs.vos ProviderProofs.vok ProviderProofs.required_vos: ProviderProofs.v Base.vos Fields.vos SrcFacts.vos Msg.vos SrcDecisions.vos Cache.vos CacheSpec.vos CacheProofs.vos Sim.vos Prober.vos Hostname.vos HostnameProofs.vos Resolver.vos Provider.vos ProviderSpec.vos
@@ -172,9 +181,9 @@ Properties_C07.vos Properties_C07.vok Properties_C07.required_vos: Properties_C0
 Properties_C09.vo Properties_C09.glob Properties_C09.v.beautified Properties_C09.required_vo: Properties_C09.v Base.vo Fields.vo SrcFacts.vo Msg.vo SrcDecisions.vo Sim.vo Prober.vo Hostname.vo HostnameProofs.vo HostNet.vo Provider.vo ProviderSpec.vo ProviderProofs.vo
 Properties_C09.vio: Properties_C09.v Base.vio Fields.vio SrcFacts.vio Msg.vio SrcDecisions.vio Sim.vio Prober.vio Hostname.vio HostnameProofs.vio HostNet.vio Provider.vio ProviderSpec.vio ProviderProofs.vio
 Properties_C09.vos Properties_C09.vok Properties_C09.required_vos: Properties_C09.v Base.vos Fields.vos SrcFacts.vos Msg.vos SrcDecisions.vos Sim.vos Prober.vos Hostname.vos HostnameProofs.vos HostNet.vos Provider.vos ProviderSpec.vos ProviderProofs.vos
-Properties_C04.vo Properties_C04.glob Properties_C04.v.beautified Properties_C04.required_vo: Properties_C04.v Base.vo Fields.vo SrcFacts.vo Msg.vo SrcDecisions.vo Cache.vo CacheSpec.vo Sim.vo Prober.vo Hostname.vo Provider.vo ProviderSpec.vo ProviderListener.vo Browser.vo BrowserProofs.vo NetProofs.vo
-Properties_C04.vio: Properties_C04.v Base.vio Fields.vio SrcFacts.vio Msg.vio SrcDecisions.vio Cache.vio CacheSpec.vio Sim.vio Prober.vio Hostname.vio Provider.vio ProviderSpec.vio ProviderListener.vio Browser.vio BrowserProofs.vio NetProofs.vio
-Properties_C04.vos Properties_C04.vok Properties_C04.required_vos: Properties_C04.v Base.vos Fields.vos SrcFacts.vos Msg.vos SrcDecisions.vos Cache.vos CacheSpec.vos Sim.vos Prober.vos Hostname.vos Provider.vos ProviderSpec.vos ProviderListener.vos Browser.vos BrowserProofs.vos NetProofs.vos
+Properties_C04.vo Properties_C04.glob Properties_C04.v.beautified Properties_C04.required_vo: Properties_C04.v Base.vo Fields.vo SrcFacts.vo Msg.vo SrcDecisions.vo Cache.vo CacheSpec.vo Sim.vo Prober.vo Hostname.vo Provider.vo ProviderSpec.vo ProviderListener.vo Browser.vo BrowserProofs.vo NetProofs.vo NetHop.vo NetPair.vo NetLag.vo Decoder.vo Encoder.vo WireSpec.vo WireMsg.vo DecoderMsg.vo EncoderMsg.vo
+Properties_C04.vio: Properties_C04.v Base.vio Fields.vio SrcFacts.vio Msg.vio SrcDecisions.vio Cache.vio CacheSpec.vio Sim.vio Prober.vio Hostname.vio Provider.vio ProviderSpec.vio ProviderListener.vio Browser.vio BrowserProofs.vio NetProofs.vio NetHop.vio NetPair.vio NetLag.vio Decoder.vio Encoder.vio WireSpec.vio WireMsg.vio DecoderMsg.vio EncoderMsg.vio
+Properties_C04.vos Properties_C04.vok Properties_C04.required_vos: Properties_C04.v Base.vos Fields.vos SrcFacts.vos Msg.vos SrcDecisions.vos Cache.vos CacheSpec.vos Sim.vos Prober.vos Hostname.vos Provider.vos ProviderSpec.vos ProviderListener.vos Browser.vos BrowserProofs.vos NetProofs.vos NetHop.vos NetPair.vos NetLag.vos Decoder.vos Encoder.vos WireSpec.vos WireMsg.vos DecoderMsg.vos EncoderMsg.vos
 Properties_C20.vo Properties_C20.glob Properties_C20.v.beautified Properties_C20.required_vo: Properties_C20.v Base.vo Fields.vo SrcFacts.vo Msg.vo Cache.vo CacheSpec.vo CacheProofs.vo Values.vo ValuesProofs.vo
 Properties_C20.vio: Properties_C20.v Base.vio Fields.vio SrcFacts.vio Msg.vio Cache.vio CacheSpec.vio CacheProofs.vio Values.vio ValuesProofs.vio
 Properties_C20.vos Properties_C20.vok Properties_C20.required_vos: Properties_C20.v Base.vos Fields.vos SrcFacts.vos Msg.vos Cache.vos CacheSpec.vos CacheProofs.vos Values.vos ValuesProofs.vos
